@@ -158,7 +158,19 @@ impl<'a, 'b> Gen<'a, 'b> {
     pub fn closed(&mut self, depth: usize, want: Want) -> Ty {
         let leaf = depth >= self.cfg.max_depth;
         match want {
-            Want::SelfDeserZero => self.prim(true),
+            // argument of a type parameter of a zero-copy aggregate: any zero-copy element type
+            Want::SelfDeserZero => {
+                if self.src.chance(1, 2) {
+                    self.prim(true)
+                } else {
+                    let t = self.zero_elem(depth.max(self.cfg.max_depth - 1), false);
+                    if !self.cfg.allow_zst_blocks && self.is_zst_like(&t) {
+                        self.prim(false)
+                    } else {
+                        t
+                    }
+                }
+            }
             Want::ZeroElem => {
                 let t = self.zero_elem(depth, leaf);
                 if !self.cfg.allow_zst_blocks && self.is_zst_like(&t) {
@@ -369,11 +381,7 @@ impl<'a, 'b> Gen<'a, 'b> {
         };
         let mut roles = vec![];
         for k in 0..n_params {
-            let role = if zero && is_enum {
-                // O11: the enum branch of the derive does not replicate bounds of field parameters,
-                // and zero-copy aggregates need the `ZeroCopy` bound on every type parameter.
-                self.src.of(&[Role::InnerZero, Role::Phantom, Role::ConstLen, Role::ConstFree])
-            } else if zero {
+            let role = if zero {
                 self.src.of(&[Role::Field, Role::Field, Role::InnerZero, Role::Phantom, Role::ConstLen, Role::ConstFree])
             } else {
                 self.src.of(&[Role::Field, Role::Field, Role::Field, Role::InnerZero, Role::InnerDeep, Role::InnerFree, Role::Phantom, Role::ConstLen, Role::ConstFree])
@@ -392,9 +400,7 @@ impl<'a, 'b> Gen<'a, 'b> {
                     if role == Role::InnerDeep {
                         bounds.push("epserde::traits::DeepCopy".to_string());
                     }
-                    // extra ordinary bounds: on struct parameters only for field parameters (see O11)
-                    let extra_ok = role != Role::Field || !is_enum;
-                    if extra_ok && self.src.chance(1, 3) {
+                    if self.src.chance(1, 3) {
                         bounds.push(self.src.of(&["Clone", "core::fmt::Debug", "Clone + core::fmt::Debug"]).to_string());
                     }
                     ParamDef::Type { name: tname, bounds, default: None }
@@ -402,9 +408,9 @@ impl<'a, 'b> Gen<'a, 'b> {
             };
             def.params.push(p);
         }
-        // where-clauses only on inner / phantom parameters (see O10)
+        // where-clauses on any type parameter
         for (k, r) in roles.iter().enumerate() {
-            if matches!(r, Role::InnerZero | Role::InnerDeep | Role::InnerFree | Role::Phantom) && self.src.chance(1, 4) {
+            if matches!(r, Role::Field | Role::InnerZero | Role::InnerDeep | Role::InnerFree | Role::Phantom) && self.src.chance(1, 4) {
                 def.where_preds.push((k, vec![self.src.of(&["Clone", "core::fmt::Debug", "Sized"]).to_string()]));
             }
         }
